@@ -1072,9 +1072,21 @@ func (fx *FnCtx) call(v *ssa.Call, c *ssa.CallCommon) {
 		fx.obligNamed(fmt.Sprintf("%s#pre@%s.%d.%d", fx.key, fc.Key, i, n), t, "requires of "+fc.Key+": "+r.Text, r.Props, r.Known)
 	}
 	// extra call-site requirements declared by the caller's contract
+	csOrd := 0
 	for _, cs := range fx.fc.Calls {
 		if cs.Callee == fc.Key {
+			lbl := cs.Req.Name
+			if lbl == "" {
+				lbl = fmt.Sprintf("c%d", csOrd)
+			}
+			csOrd++
 			env := fx.env(st)
+			// names are resolved where the call stands; a local that is not in scope there (declared later
+			// in the body) denotes an arbitrary value, so the requirement must hold whatever it is
+			if cp := c.Pos(); cp.IsValid() {
+				env.pos = cp
+				env.laxLocals = true
+			}
 			for i, pn := range pnames {
 				env.bound["arg_"+pn] = args[i]
 				env.bound[fmt.Sprintf("arg%d", i)] = args[i]
@@ -1084,7 +1096,7 @@ func (fx *FnCtx) call(v *ssa.Call, c *ssa.CallCommon) {
 				fx.errf("binding failure: call clause for %s in %s: %v", fc.Key, fx.key, err)
 				continue
 			}
-			fx.obligNamed(fmt.Sprintf("%s#callreq@%s.%d", fx.key, fc.Key, n), t, cs.Req.Text, cs.Req.Props, cs.Req.Known)
+			fx.obligNamed(fmt.Sprintf("%s#callreq.%s@%s.%d", fx.key, lbl, fc.Key, n), t, cs.Req.Text, cs.Req.Props, cs.Req.Known)
 		}
 	}
 	// recursion: variant must decrease
@@ -1192,6 +1204,9 @@ func (fx *FnCtx) call(v *ssa.Call, c *ssa.CallCommon) {
 		resVals = append(resVals, Val{T: r, GoT: resT[i]})
 	}
 	for i, e := range fc.Ensures {
+		if e.Internal {
+			continue
+		}
 		env := mkEnv(st, pre)
 		env.results = resVals
 		// named results of the callee
